@@ -19,6 +19,8 @@ import (
 
 type astIdent = ast.Ident
 
+var buildBodies = map[string]bool{"encoding/binary": true}
+
 type Loaded struct {
 	fset             *token.FileSet
 	pkgs             []*packages.Package
@@ -54,7 +56,14 @@ func loadRepo(repo string, patterns []string) (*Loaded, error) {
 		return nil, fmt.Errorf("load errors: %s", strings.Join(errs, "; "))
 	}
 	prog, _ := ssautil.AllPackages(pkgs, ssa.GlobalDebug|ssa.InstantiateGenerics)
-	prog.Build()
+	// build function bodies only where they are needed: galaxy itself and the few library
+	// packages whose real bodies are inlined (see contracts/external: `inline`).
+	for _, p := range prog.AllPackages() {
+		pp := p.Pkg.Path()
+		if strings.HasPrefix(pp, galaxyPrefix) || buildBodies[pp] {
+			p.Build()
+		}
+	}
 	L := &Loaded{fset: prog.Fset, pkgs: pkgs, prog: prog, byPath: map[string]*packages.Package{}, fnInfos: map[*ssa.Function]*fnInfo{},
 		inlinableCache: map[*ssa.Function]bool{}, immutableGlobals: map[string]bool{}, repo: repo}
 	packages.Visit(pkgs, nil, func(p *packages.Package) { L.byPath[p.PkgPath] = p })
